@@ -149,6 +149,9 @@ def main(argv=None):
               f"[key={k}; {ctx.violation_counts[k]} occurrence(s) in this run]")
     n_unlisted = sum(c for k, c in ctx.violation_counts.items() if k not in known)
     rdir = os.path.join(VERIF, "replays", prop)
+    if os.environ.get("HVMC_KEEP_REPLAYS") != "1":
+        import shutil
+        shutil.rmtree(rdir, ignore_errors=True)     # replays of earlier runs would only confuse
     for v in unlisted:
         os.makedirs(rdir, exist_ok=True)
         body = dict(property=prop, check=modname, tier=a.tier, **v)
